@@ -62,7 +62,9 @@ def run(ctx, replay):
         "samples": [s for sm in sums + s2 for s in sm.get("samples", [])][:4],
         "evaluations": n, "distinct_nontrivial": len(cases),
         "rule": "validate table: 4 key types x (15 signature + 19 key-encryption algorithm names + none + unknown) x structurally valid/invalid x "
-                "private/public; loadkey table: key sets of 0..MaxSet keys x ids x requested id; plus NewKeyPair for every signature "
+                "private/public (invalid = a broken public member, or - for private keys - an intact public part with an empty / short `d`); loadkey table: "
+                "key sets of 0..MaxSet keys x ids x requested id (present, absent, near misses with blanks / other case), a quarter of the files padded "
+                "beyond 5 KiB; plus NewKeyPair for every signature "
                 "algorithm and all ordered pairs of generated key pairs for cross verification. Distinct by construction.",
         "exhaustive": True,
         "accepted_keys": sum(s.get("accepted", 0) for s in sums),
